@@ -19,8 +19,10 @@ import (
 	"strings"
 	"testing"
 
-	erasurecoding "github.com/New-JAMneration/JAM-Protocol/pkg/erasure_coding"
 	"github.com/New-JAMneration/JAM-Protocol/internal/zzverif/vh"
+	erasurecoding "github.com/New-JAMneration/JAM-Protocol/pkg/erasure_coding"
+	"sync"
+	"sync/atomic"
 )
 
 func padded(blob []byte, k int) []byte {
@@ -55,7 +57,9 @@ func roundTrip(h *vh.H, stratum string, ci int, blob []byte, k, n int, idx []int
 		flat = append(flat, shards[i]...)
 	}
 	var out []byte
-	if pn, msg, st := vh.Guard(func() { out, err = erasurecoding.DecodeShards(flat, append([]int(nil), idx...), k, n-k, len(shards[0])) }); pn || err != nil {
+	if pn, msg, st := vh.Guard(func() {
+		out, err = erasurecoding.DecodeShards(flat, append([]int(nil), idx...), k, n-k, len(shards[0]))
+	}); pn || err != nil {
 		d["panic"], d["stack"], d["err"] = msg, st, fmt.Sprint(err)
 		h.Viol(stratum, ci, "", "decoding fails on k distinct valid shards", d)
 		return false
@@ -245,5 +249,72 @@ func TestVerifC30(t *testing.T) {
 				h.Count("round_trips_under_valgrind", int64(trips))
 			}
 		}
+	}
+}
+
+// ---- concurrent recoveries (race build) ----------------------------------------------------------------------------
+//
+// Recovery is a function of the shards it is given: several goroutines recovering the same or different blobs from
+// different index subsets at the same time (auditors and assurers do) must each get their own blob back. Every
+// result is compared with the original; the race detector watches the Go side of the cgo wrapper.
+func TestVerifC30Par(t *testing.T) {
+	h := vh.Open(t, "C30")
+	defer h.Done()
+	n := h.N(60, 600)
+	for ci := 0; ci < n; ci++ {
+		if !h.Mine("par", ci) {
+			continue
+		}
+		h.CaseLight("par", ci)
+		r := h.Rng("par", ci)
+		k, nn := 2, 6
+		if ci%6 == 5 {
+			k, nn = 342, 1023
+		}
+		type job struct {
+			want  []byte
+			flat  []byte
+			idx   []int
+			shard int
+		}
+		var jobs []job
+		for b := 0; b < 1+r.IntN(3); b++ {
+			blob := r.Bytes(2*k*(1+r.IntN(3)) + r.IntN(3))
+			shards, err := erasurecoding.EncodeDataShards(append([]byte(nil), blob...), k, nn-k)
+			if err != nil {
+				h.Viol("par", ci, "", "encoding fails on a non-empty blob", map[string]any{"err": err.Error()})
+				continue
+			}
+			for s := 0; s < 4; s++ {
+				idx := r.Perm(nn)[:k]
+				flat := make([]byte, 0, k*len(shards[0]))
+				for _, i := range idx {
+					flat = append(flat, shards[i]...)
+				}
+				jobs = append(jobs, job{padded(blob, k), flat, idx, len(shards[0])})
+			}
+		}
+		var wg sync.WaitGroup
+		var bad atomic.Int64
+		var first atomic.Value
+		for g, j := range jobs {
+			wg.Add(1)
+			go func(g int, j job) {
+				defer wg.Done()
+				for round := 0; round < 20; round++ {
+					out, err := erasurecoding.DecodeShards(append([]byte(nil), j.flat...), append([]int(nil), j.idx...), k, nn-k, j.shard)
+					if err != nil || !bytes.Equal(out, j.want) {
+						bad.Add(1)
+						first.CompareAndSwap(nil, fmt.Sprintf("goroutine %d round %d: err=%v, equal=%v", g, round, err, bytes.Equal(out, j.want)))
+					}
+				}
+			}(g, j)
+		}
+		wg.Wait()
+		if bad.Load() > 0 {
+			h.Viol("par", ci, "", "concurrent recoveries disturb each other (wrong data or an error for shards that recover alone)", map[string]any{"k": k, "n": nn, "goroutines": len(jobs), "bad_results": bad.Load(), "first": first.Load()})
+		}
+		h.Count("concurrent_recoveries", int64(20*len(jobs)))
+		h.Distinct("par", ci)
 	}
 }
